@@ -41,6 +41,14 @@ fn check(base: &Base, base_wire: &[u8], corrupt: &[u8], kind: &'static str, clas
     let changed = corrupt != base_wire;
     rep.case(changed.then(|| fnv(corrupt)));
     let r = catch(|| Frame::from_bytes(corrupt).map(|f| (f.address().0, f.message_type().0, f.data().to_vec())));
+    // ... and once more straight away: whether a string is accepted cannot depend on what was decoded just before it
+    let again = catch(|| Frame::from_bytes(corrupt).map(|f| (f.address().0, f.message_type().0, f.data().to_vec())));
+    let same = match (&r, &again) {
+        (Ok(Ok(a)), Ok(Ok(b))) => a == b,
+        (Ok(Err(_)), Ok(Err(_))) => true,
+        (Err(_), Err(_)) => true,
+        _ => false,
+    };
     let fail = |rep: &mut Report, cls: &str, obs: String| {
         let sig = format!("{}>{}", hex(base_wire), hex(corrupt));
         rep.violation(
@@ -60,8 +68,9 @@ fn check(base: &Base, base_wire: &[u8], corrupt: &[u8], kind: &'static str, clas
             ]),
         );
     };
-    match r {
+    match &r {
         Ok(Ok((a, t, d))) => {
+            let (a, t, d) = (*a, *t, d.clone());
             if a == base.addr && t == base.ty && d == base.data {
                 rep.count("outcome_ok_original");
                 if changed {
@@ -77,6 +86,15 @@ fn check(base: &Base, base_wire: &[u8], corrupt: &[u8], kind: &'static str, clas
         }
         Err(p) => fail(rep, "panic", format!("panic {} at {}", p.msg, short_loc(&p.loc))),
     }
+    if !same {
+        let show = |x: &Result<Result<(u16, u8, Vec<u8>), flipdot_core::FrameError>, crate::util::PanicInfo>| match x {
+            Ok(Ok((a, t, d))) => format!("Ok({:04X}:{:02X}:{})", a, t, hex(d)),
+            Ok(Err(e)) => format!("Err({:?})", e),
+            Err(p) => format!("panic {}", p.msg),
+        };
+        fail(rep, "second_decode_differs", format!("{} the first time and {} the second time", show(&r), show(&again)));
+    }
+    rep.count("decoded_twice_in_a_row");
     if changed && rep.wants_sample() {
         rep.sample(|| J::obj(vec![("kind", J::s(kind)), ("field", J::s(class)), ("base", J::s(show_bytes(base_wire))), ("corrupt", J::s(show_bytes(corrupt)))]));
     }
